@@ -337,8 +337,16 @@ class Facts:
                 "bodies_dumped": d["bodies_dumped"],
                 "argv": d["argv"],
             }
+            seen_here = {}
             for b in d["bodies"]:
                 body = Body(b, cname)
+                # Distinct items of one compilation can print the same path (e.g. two `__DeserializeWith` helpers that
+                # serde derives inside one visit_map, or the anonymous `_` consts): keep them all, the 2nd, 3rd.. under
+                # `path#2`, `path#3` (ordered as emitted, i.e. by definition order). Only functions/closures matter.
+                k = seen_here.get(body.path, 0) + 1
+                seen_here[body.path] = k
+                if k > 1 and body.kind in ("Fn", "AssocFn", "Closure"):
+                    body.path = "%s#%d" % (body.path, k)
                 # the same lib may be compiled twice (lib + lib-test); keep the first (non-test sorts first)
                 if body.path not in self.bodies:
                     self.bodies[body.path] = body
